@@ -271,6 +271,7 @@ def _one_step(ctx, cases, net, op, nets2, nets2_st):
     st0 = I.observe(net)
     work = copy.deepcopy(net)
     exc = None
+    unmodelable = False
     try:
         after = I.apply_op(work, op, nets2)
     except I.Skip:
@@ -278,13 +279,18 @@ def _one_step(ctx, cases, net, op, nets2, nets2_st):
     except Exception as e:
         exc = I.exc_class(e)
         after = net
+        if op[0] == "merge_nets" and "boolean column" in str(e):
+            # _preserve_dtypes refuses NaN in a bool data column (e.g. gen.controllable present in one net only): a property
+            # of the data columns, which the relational model does not carry
+            ctx.count("merge_nets_dtype_refusal")
+            unmodelable = True
     st1 = I.observe(after) if exc is None else st0
     bad = I.dangling(st1) if exc is None else []
     changed = exc is not None or canon_impl(st0) != canon_impl(st1)
     case = {"op": op, "before": st0, "exc": exc, "after": st1 if exc is None else None, "dangling": bad,
             "nets2": nets2_st if op[0] == "merge_nets" else None,
             "net_after": net if (bad or exc is not None) else after,       # revert a step that broke the invariant
-            "model": op[0] in MODEL_OPS and modelable(st0) and (exc is not None or modelable(st1)) and
+            "model": (not unmodelable) and op[0] in MODEL_OPS and modelable(st0) and (exc is not None or modelable(st1)) and
                      (op[0] != "merge_nets" or modelable(nets2_st[op[1]]))}
     cases.append(case)
     opname = op[0] + (":" + str(op[1]) if op[0] in ("reindex_elements", "drop_elements", "create_el") else "")
